@@ -148,6 +148,8 @@ def build_slack(vals, form):
         return float(vals[0])
     if form == "0d":
         return np.array(float(vals[0]))
+    if form == "row":        # the same m values as a (1, m) row, e.g. `eps * u_star[None, :]` or a row of a 2-D table
+        return np.array([[float(v) for v in vals]], dtype=float)
     return np.array([float(v) for v in vals], dtype=float)
 
 
@@ -304,7 +306,7 @@ def gen_rect_exact(ctx, rng, dtype=None, intbound=False):
     elif sk == "negscalar":
         svals, form = [-dy(rng, 0, max(1, KS // 4), p)], rng.choice(["py", "0d", "vec"])
     else:
-        svals, form = [dy(rng, -max(1, KS // 8), max(1, KS // 4), p) for _ in range(m)], "vec"
+        svals, form = [dy(rng, -max(1, KS // 8), max(1, KS // 4), p) for _ in range(m)], rng.choice(["vec", "vec", "row"])
     sfull = svals * m if len(svals) == 1 and m != 1 else list(svals)
     if len(sfull) != m:
         sfull = [svals[0]] * m
@@ -436,7 +438,7 @@ def gen_rect_float(ctx, rng, nprng):
     elif sk == "neg":
         svals, form = [-float(10.0 ** nprng.uniform(-4, -2 if remote else 0))], rng.choice(["py", "0d", "vec"])
     else:
-        svals, form = [float(x) for x in nprng.normal(size=m) * 10.0 ** nprng.uniform(-4, -2 if remote else 1)], "vec"
+        svals, form = [float(x) for x in nprng.normal(size=m) * 10.0 ** nprng.uniform(-4, -2 if remote else 1)], rng.choice(["vec", "vec", "row"])
     sfull = np.array(svals * m if len(svals) == 1 else svals)[:m]
     l1, u1, l2, u2 = c1 - h1, c1 + h1, c2 - h2, c2 + h2
     scale = max(1.0, np.abs(np.concatenate([l1, u1, l2, u2, sfull])).max()) * max(1.0, np.abs(W).sum(axis=1).max())
